@@ -646,7 +646,16 @@ def check_iface_loop(ctx, cls, slot, module='simulator', prop_vec='self.c_propen
         st = c
         while not isinstance(st, ast.stmt):
             st = st._parent
-        if not (isinstance(st, ast.Assign) and src(st.targets[0]) == '%s[%s]' % (dest, tv) and util.strip_cast(st.value) is c):
+        direct = isinstance(st, ast.Assign) and src(st.targets[0]) == '%s[%s]' % (dest, tv) and util.strip_cast(st.value) is c
+        if not direct and isinstance(st, ast.Assign) and len(st.targets) == 1 and isinstance(st.targets[0], ast.Name) and util.strip_cast(st.value) is c:
+            # through a temporary that is written nowhere else: `t = propensity...; dest[r] = t`
+            tmp = st.targets[0].id
+            block = getattr(st._parent, 'body', [])
+            if util.single_defs(f).get(tmp) is not None and st in block:
+                rest = block[block.index(st) + 1:]
+                direct = bool(rest) and isinstance(rest[0], ast.Assign) and src(rest[0].targets[0]) == '%s[%s]' % (dest, tv) \
+                    and isinstance(util.strip_cast(rest[0].value), ast.Name) and util.strip_cast(rest[0].value).id == tmp
+        if not direct:
             problems.append('value not stored into %s[%s]: %s' % (dest, tv, util.stmt_key(st)))
         # call inside the loop
         inside = any(x is c for x in ast.walk(lp))
